@@ -45,6 +45,11 @@ def run(tier, seed):
             for n, p in d:
                 p['ph']['plid'] = rng.choice(IDS + [rng.randrange(2 ** 32)])
                 p['ph']['obmc'] = rng.choice([0, 1, 7, 42, 4294967295, rng.randrange(1000)])
+                # a reference code that fills all 32 characters of its field
+                if rng.random() < 0.25:
+                    for sec in p['sections']:
+                        if sec['kind'] == 'src' and sec['primary']:
+                            sec['src']['ascii'] = (sec['src']['ascii'][:8].replace(b' ', b'0').replace(b'\0', b'0') + b'FULLWIDTHREFERENCECODE0123456789')[:32]
             d = clirun.keep_decodable(env, d)
             if not d:
                 continue
@@ -65,6 +70,8 @@ def run(tier, seed):
             for v in [p['ph']['eid'] for _, p in d][:3] + [0xDEADBEEF]:
                 lookups.append(('id', rng.choice(spellings(rng, v)), v))
             codes = [ascii_ref(p) for _, p in d if ascii_ref(p)]
+            for c in [x for x in codes if len(x) == 32][:2]:
+                lookups += [('src', c, None), ('src', c[:31], None), ('src', c[1:], None)]      # the whole field, and one character less
             for c in codes[:3]:
                 a = rng.randrange(len(c))
                 b = rng.randrange(a + 1, len(c) + 1)
